@@ -1,7 +1,6 @@
 // Kani harnesses for crates/erbium-core/src/dhcp/config.rs (C19: the dhcp-policies section is parsed totally
-// and what it accepts is safe to expand).  Yaml values are built by hand; mappings are empty or hold one
-// CONCRETE string key.  Filling a HashSet with symbolic addresses is out of CBMC's reach, so `apply-subnet` /
-// `apply-range` are driven only with values whose expansion is empty or fails before the first insert.
+// and what it accepts is safe to expand).  Yaml values are built by hand; mappings can only be EMPTY (see the
+// note at the end of the file).
 #[cfg(kani)]
 mod k {
     use super::super::*;
@@ -11,21 +10,6 @@ mod k {
     fn is_invalid_config<T>(r: &Result<T, Error>) -> bool {
         matches!(r, Err(Error::InvalidConfig(_)))
     }
-    fn ascii<const N: usize>() -> String {
-        let b: [u8; N] = kani::any();
-        let mut i = 0;
-        while i < N {
-            kani::assume(b[i] < 128);
-            i += 1;
-        }
-        String::from(std::str::from_utf8(&b).unwrap())
-    }
-    fn with_tail<const N: usize>(head: &str) -> String {
-        let mut s = String::from(head);
-        s.push_str(&ascii::<N>());
-        s
-    }
-
     const KIND_REAL: u8 = 0;
     const KIND_INT: u8 = 1;
     const KIND_STR: u8 = 2;
@@ -55,46 +39,17 @@ mod k {
         }
     }
 
-    // -> accepted prefix length
-    fn subnet_on<const N: usize>() -> Option<u8> {
-        let y = Yaml::String(with_tail::<N>("10.0.0.0/"));
-        let r = Config::parse_subnet(&y);
-        assert!(matches!(r, Ok(Some(_)) | Err(Error::InvalidConfig(_))), "parse_subnet: a subnet or InvalidConfig");
-        let mut acc = None;
-        if let Ok(Some(s)) = &r {
-            assert!(s.addr == std::net::Ipv4Addr::new(10, 0, 0, 0), "address part");
-            assert!(s.prefixlen <= 32, "an accepted `match-subnet` / `apply-subnet` has a prefix length of at most 32 (apply-subnet computes `32 - prefixlen`)");
-            acc = Some(s.prefixlen);
-        }
-        std::mem::forget(r);
-        std::mem::forget(y);
-        acc
-    }
-
-    /// VERIF: {"p":"C19","tier":"quick","fns":["dhcp::config::Config::parse_subnet","erbium_net::Ipv4Subnet::new","erbium_net::Ipv4Subnet::netmask"],"bounds":"`match-subnet` / `apply-subnet` strings \"10.0.0.0/\" + every ASCII string of length 0,1,2,3","oracle":"Ok(subnet) or Err(InvalidConfig), never a panic / shift overflow; an accepted subnet has prefixlen <= 32","stubs":["alloc::fmt::format -> empty string (message text only)"],"covers":2,"unwind":16}
-    #[kani::proof]
-    #[kani::unwind(16)]
-    #[kani::stub(alloc::fmt::format, empty_format)]
-    fn c19_dhcp_parse_subnet_accepted_lengths() {
-        let n: u8 = kani::any();
-        let acc = match n {
-            0 => subnet_on::<0>(),
-            1 => subnet_on::<1>(),
-            2 => subnet_on::<2>(),
-            _ => subnet_on::<3>(),
-        };
-        kani::cover!(n == 2 && acc == Some(24), "10.0.0.0/24 accepted");
-        kani::cover!(n == 1 && acc.is_none(), "10.0.0.0/5 (host bits) or junk refused");
-    }
-
     fn wrong_type_on(k: u8) {
         let y = yaml_of_kind(k);
-        let r = Config::parse_subnet(&y);
-        match k {
-            KIND_NULL => assert!(matches!(r, Ok(None)), "parse_subnet: null is None"),
-            _ => assert!(is_invalid_config(&r), "parse_subnet refuses non-strings and \"x\" with InvalidConfig"),
+        // parse_subnet on a string goes through str::split, which CBMC cannot get through (see config.rs)
+        if k != KIND_STR {
+            let r = Config::parse_subnet(&y);
+            match k {
+                KIND_NULL => assert!(matches!(r, Ok(None)), "parse_subnet: null is None"),
+                _ => assert!(is_invalid_config(&r), "parse_subnet refuses non-strings with InvalidConfig"),
+            }
+            std::mem::forget(r);
         }
-        std::mem::forget(r);
         let r = Config::parse_number(&y);
         match &y {
             Yaml::Null => assert!(matches!(r, Ok(None)), "parse_number: null is None"),
@@ -119,30 +74,25 @@ mod k {
         std::mem::forget(y);
     }
 
-    /// VERIF: {"p":"C19","tier":"quick","fns":["dhcp::config::Config::parse_subnet","dhcp::config::Config::parse_number","dhcp::config::Config::parse_routes","dhcp::config::Config::parse_policies","dhcp::config::Config::parse_policy"],"bounds":"each parser on one value of every Yaml variant: Real, Integer(any), String \"x\", Boolean(any), `[~]`, `[\"a\",\"b\"]`, Alias(any), Null, BadValue, `[]`, `{}`, `[{}]`","oracle":"right shape => Ok; null => Ok(None) where null is allowed; everything else => Err(InvalidConfig); never a panic","stubs":["alloc::fmt::format -> empty string (message text only)","std::hash::RandomState::new -> fixed keys (creating empty maps)"],"covers":3,"unwind":6}
+    /// VERIF: {"p":"C19","tier":"quick","fns":["dhcp::config::Config::parse_subnet","dhcp::config::Config::parse_number","dhcp::config::Config::parse_routes","dhcp::config::Config::parse_policies","dhcp::config::Config::parse_policy"],"bounds":"each parser on one value, one after the other, of every Yaml variant: Real, Integer(any), String \"x\" (parse_subnet is not run on it), Boolean(any), `[~]`, `[\"a\",\"b\"]`, Alias(any), Null, BadValue, `[]`, `{}`, `[{}]`","oracle":"right shape => Ok; null => Ok(None) where null is allowed; everything else => Err(InvalidConfig); never a panic","stubs":["alloc::fmt::format -> empty string (message text only)","std::hash::RandomState::new -> fixed keys (creating empty maps)"],"covers":1,"unwind":6}
     #[kani::proof]
     #[kani::unwind(6)]
     #[kani::stub(alloc::fmt::format, empty_format)]
     #[kani::stub(std::hash::RandomState::new, fixed_random_state)]
     fn c19_dhcp_parsers_wrong_type() {
-        let k: u8 = kani::any();
-        kani::cover!(k == 11, "a list of one empty mapping");
-        kani::cover!(k == 9, "[]");
-        kani::cover!(k == 1, "integer");
-        match k {
-            0 => wrong_type_on(KIND_REAL),
-            1 => wrong_type_on(KIND_INT),
-            2 => wrong_type_on(KIND_STR),
-            3 => wrong_type_on(KIND_BOOL),
-            4 => wrong_type_on(KIND_ARR_NULL),
-            5 => wrong_type_on(KIND_ARR_STRS),
-            6 => wrong_type_on(KIND_ALIAS),
-            7 => wrong_type_on(KIND_NULL),
-            8 => wrong_type_on(KIND_BAD),
-            9 => wrong_type_on(KIND_ARR_EMPTY),
-            10 => wrong_type_on(KIND_HASH_EMPTY),
-            _ => wrong_type_on(KIND_ARR_HASH_EMPTY),
-        }
+        wrong_type_on(KIND_REAL);
+        wrong_type_on(KIND_INT);
+        wrong_type_on(KIND_STR);
+        wrong_type_on(KIND_BOOL);
+        wrong_type_on(KIND_ARR_NULL);
+        wrong_type_on(KIND_ARR_STRS);
+        wrong_type_on(KIND_ALIAS);
+        wrong_type_on(KIND_NULL);
+        wrong_type_on(KIND_BAD);
+        wrong_type_on(KIND_ARR_EMPTY);
+        wrong_type_on(KIND_HASH_EMPTY);
+        wrong_type_on(KIND_ARR_HASH_EMPTY);
+        kani::cover!(true, "every call returned");
     }
 
     // -> accepted?
@@ -174,87 +124,8 @@ mod k {
         }
     }
 
-    // ---- policies with one concrete key ----------------------------------------------------------------
-    fn hash1(k: &str, v: Yaml) -> Yaml {
-        let mut h = yaml_rust::yaml::Hash::new();
-        h.insert(Yaml::String(String::from(k)), v);
-        Yaml::Hash(h)
-    }
-
-    fn str_of(head: &str, tail: &[u8]) -> String {
-        let mut v = Vec::with_capacity(head.len() + tail.len());
-        v.extend_from_slice(head.as_bytes());
-        v.extend_from_slice(tail);
-        String::from(std::str::from_utf8(&v).unwrap())
-    }
-
-    /// VERIF: {"p":"C19","tier":"thorough","fns":["dhcp::config::Config::parse_policy (apply-subnet expansion, dhcp/config.rs:478-489)","dhcp::config::Config::parse_subnet","erbium_net::Ipv4Subnet::new"],"bounds":"policy {apply-subnet: S} with S = \"192.0.2.0/3\" + one symbolic ASCII octet assumed to be one of '1','2' or a non-digit (so /31, /32 or refused: expansions that are empty - no HashSet insert), or S = \"0.0.0.0/\" + one symbolic ASCII octet assumed not in '1'..='9' (so /0 or refused)","oracle":"Ok(policy) or Err(InvalidConfig): the host-range arithmetic `1..((1 << (32 - prefixlen)) - 1) - 1` never overflows / panics","stubs":["alloc::fmt::format -> empty string (message text only)","std::hash::RandomState::new -> fixed keys"],"covers":1,"unwind":16}
-    #[kani::proof]
-    #[kani::unwind(16)]
-    #[kani::stub(alloc::fmt::format, empty_format)]
-    #[kani::stub(std::hash::RandomState::new, fixed_random_state)]
-    fn c19_dhcp_apply_subnet_boundary_lengths() {
-        let w: bool = kani::any();
-        let c: u8 = kani::any();
-        kani::assume(c < 128);
-        let ok = if w {
-            kani::assume(c == b'1' || c == b'2' || !c.is_ascii_digit());
-            apply_subnet_str(str_of("192.0.2.0/3", &[c]))
-        } else {
-            kani::assume(!(b'1'..=b'9').contains(&c));
-            apply_subnet_str(str_of("0.0.0.0/", &[c]))
-        };
-        kani::cover!(w && c == b'1' && ok, "192.0.2.0/31 accepted (no hosts)");
-    }
-    fn apply_subnet_str(s: String) -> bool {
-        let y = hash1("apply-subnet", Yaml::String(s));
-        let r = Config::parse_policy(&y);
-        assert!(matches!(r, Ok(_) | Err(Error::InvalidConfig(_))), "parse_policy: a policy or InvalidConfig");
-        let ok = r.is_ok();
-        std::mem::forget(r);
-        std::mem::forget(y);
-        ok
-    }
-
-    /// VERIF: {"p":"C19","tier":"thorough","fns":["dhcp::config::Config::parse_policy (apply-subnet)","dhcp::config::Config::parse_subnet","erbium_net::Ipv4Subnet::new"],"bounds":"policy {apply-subnet: \"10.0.0.0/\" + two symbolic ASCII octets assumed NOT to spell a number in 07..=30} (so the over-long lengths /33../99, /31, /32, host-bit errors and junk; the lengths whose expansion would fill a HashSet are excluded)","oracle":"Ok(policy) or Err(InvalidConfig), never a panic","stubs":["alloc::fmt::format -> empty string (message text only)","std::hash::RandomState::new -> fixed keys"],"covers":1,"unwind":16}
-    #[kani::proof]
-    #[kani::unwind(16)]
-    #[kani::stub(alloc::fmt::format, empty_format)]
-    #[kani::stub(std::hash::RandomState::new, fixed_random_state)]
-    fn c19_dhcp_apply_subnet_overlong_lengths() {
-        let a: u8 = kani::any();
-        let b: u8 = kani::any();
-        kani::assume(a < 128 && b < 128);
-        if a.is_ascii_digit() && b.is_ascii_digit() {
-            let n = (a - b'0') * 10 + (b - b'0');
-            kani::assume(n < 7 || n > 30);
-        }
-        // "+N" is a number too for u8::from_str
-        kani::assume(a != b'+');
-        let ok = apply_subnet_str(str_of("10.0.0.0/", &[a, b]));
-        kani::cover!(a == b'3' && b == b'1' && ok, "10.0.0.0/31 accepted");
-    }
-
-    /// VERIF: {"p":"C19","tier":"thorough","fns":["dhcp::config::Config::parse_routes (dhcp/config.rs:109-195)"],"bounds":"`apply-routes`-style list with one entry {prefix: S}: S = \"192.0.2.0\" + every ASCII string of length 0,1,2,3 appended (so no slash at all, \"/\", \"/x\", \"/24\", \"/99\", ...)","oracle":"Ok or Err(InvalidConfig) (an entry without next-hop is always refused), never a panic (`it.next().unwrap().parse().unwrap()`)","stubs":["alloc::fmt::format -> empty string (message text only)","std::hash::RandomState::new -> fixed keys"],"covers":1,"unwind":16}
-    #[kani::proof]
-    #[kani::unwind(16)]
-    #[kani::stub(alloc::fmt::format, empty_format)]
-    #[kani::stub(std::hash::RandomState::new, fixed_random_state)]
-    fn c19_dhcp_parse_routes_prefix_string() {
-        let n: u8 = kani::any();
-        kani::cover!(n == 0xA5, "reached");
-        match n {
-            0 => route_on::<0>(),
-            1 => route_on::<1>(),
-            2 => route_on::<2>(),
-            _ => route_on::<3>(),
-        }
-    }
-    fn route_on<const N: usize>() {
-        let y = Yaml::Array(vec![hash1("prefix", Yaml::String(with_tail::<N>("192.0.2.0")))]);
-        let r = Config::parse_routes(&y);
-        assert!(is_invalid_config(&r), "a route without next-hop is refused with InvalidConfig");
-        std::mem::forget(r);
-        std::mem::forget(y);
-    }
+    // NOT REACHABLE (measured): any mapping with at least one entry.  yaml_rust's Hash is a LinkedHashMap over
+    // std's HashMap; one `insert` of one CONCRETE key (RandomState stubbed) does not finish within 900 s of CBMC
+    // time, so parsers that iterate over a populated mapping (parse_policy incl. apply-subnet/apply-range expansion, parse_routes entries) cannot be driven
+    // from here.  The YAML-level behaviour of those paths was confirmed natively instead (see the report).
 }
